@@ -45,11 +45,11 @@ Definition L_root := lit "root ::= document".
 
 Definition lines_expected (hs : str -> str) (hf : field -> str -> str) (fs : list field) (env : bool) : list str :=
   [L_hdr ++ hs h_schema_name ++ []; []; L_ws; []]
-  ++ map (fun f => hf f h_rule_name ++ fl_a ++ hf f h_field_name ++ fl_b ++ hf f h_pattern ++ []) fs
+  ++ map (fun f => hf f h_rule_name ++ fl_a ++ hf f h_field_name_esc ++ fl_b ++ hf f h_pattern ++ []) fs
   ++ [[]]
   ++ (if is_nil fs then [L_content_nf] else [L_field_open ++ hs h_field_refs ++ [41]; L_content_f])
   ++ [[]]
-  ++ (if env then [L_env_start ++ hs h_schema_upper ++ L_env_start_close; L_env_end; []; L_meta_block; L_meta_content;
+  ++ (if env then [L_env_start ++ hs h_schema_upper_esc ++ L_env_start_close; L_env_end; []; L_meta_block; L_meta_content;
                    L_meta_field; []; L_doc_env] else [L_doc_noenv])
   ++ [[]; L_root].
 
@@ -58,7 +58,8 @@ Lemma lines_g_eq hs hf fs env : lines_g hs hf fs env = lines_expected hs hf fs e
 Proof. destruct fs, env; vm_compute; reflexivity. Qed.
 
 Definition refs_line (s : schema) : str := L_field_open ++ join gbnf_schema_refs_sep (rule_names s) ++ [41].
-Definition env_start_line (s : schema) : str := L_env_start ++ py_upper (sc_name s) (sc_upper s) ++ L_env_start_close.
+Definition env_start_line (s : schema) : str :=
+  L_env_start ++ escape_literal (py_upper (sc_name s) (sc_upper s)) ++ L_env_start_close.
 
 Definition mid_lines (s : schema) (env : bool) : list str :=
   [[]; L_ws; []]
@@ -74,13 +75,13 @@ Theorem schema_lines_eq s env :
   schema_lines s env = ((L_hdr ++ sc_name s) :: mid_lines s env) ++ [L_root].
 Proof.
   rewrite schema_lines_g, lines_g_eq. unfold lines_expected, mid_lines.
-  assert (Em : map (fun f => hole_field s f h_rule_name ++ fl_a ++ hole_field s f h_field_name ++ fl_b
+  assert (Em : map (fun f => hole_field s f h_rule_name ++ fl_a ++ hole_field s f h_field_name_esc ++ fl_b
                              ++ hole_field s f h_pattern ++ []) (sc_fields s) = map field_line (sc_fields s)).
-  { apply map_ext. intro f. rewrite app_nil_r. reflexivity. }
+  { apply map_ext. intro f. rewrite app_nil_r, field_line_eq. reflexivity. }
   rewrite Em. rewrite (app_nil_r (hole_schema s h_schema_name)).
   change (hole_schema s h_schema_name) with (sc_name s).
   change (L_field_open ++ hole_schema s h_field_refs ++ [41]) with (refs_line s).
-  change (L_env_start ++ hole_schema s h_schema_upper ++ L_env_start_close) with (env_start_line s).
+  change (L_env_start ++ hole_schema s h_schema_upper_esc ++ L_env_start_close) with (env_start_line s).
   cbn [app]. rewrite <- !app_assoc. cbn [app].
   repeat (rewrite <- app_comm_cons || rewrite <- app_assoc). reflexivity.
 Qed.
@@ -213,14 +214,19 @@ Proof.
 Qed.
 
 (* ---- envelope-start ::= (quoted) ===NAME=== --------------------------------------------------------------------------- *)
-Lemma env_start_line_rule s : forallb plainc (py_upper (sc_name s) (sc_upper s)) = true ->
-  exists x, line_rule (env_start_line s) = Some (mkRule n_env_start [[ILit x]]).
+(* the upper-cased schema name goes through _escape_literal (repo 481c8b3): for EVERY name the line is one rule whose
+   only item is the literal ===NAME=== with the name read back as itself *)
+Lemma env_start_line_rule s :
+  line_rule (env_start_line s)
+  = Some (mkRule n_env_start [[ILit ([61;61;61] ++ py_upper (sc_name s) (sc_upper s) ++ [61;61;61])]]).
 Proof.
-  intro H. unfold line_rule, env_start_line. set (up := py_upper _ _) in *.
+  unfold line_rule, env_start_line. rewrite escape_literal_spec. generalize (py_upper (sc_name s) (sc_upper s)). intro up.
   rewrite <- !app_assoc, run_app.
   replace (runf init L_env_start) with (mkP MLit n_env_start frame0 [] [61;61;61] false [] []) by (vm_compute; reflexivity).
-  rewrite run_app, run_lit_plain by exact H.
-  eexists. set (x := runf _ _). vm_compute in x. subst x. reflexivity.
+  rewrite run_app, run_lit_esc.
+  change (L_env_start_close ++ [c_nl]) with [61;61;61;c_dq;c_nl].
+  change [61;61;61;c_dq;c_nl] with ([61;61;61] ++ [c_dq;c_nl]).
+  rewrite run_app, run_lit_plain by reflexivity. rewrite <- app_assoc. reflexivity.
 Qed.
 
 (* ---- the last line has no newline ------------------------------------------------------------------------------ *)
@@ -318,15 +324,15 @@ Proof.
   intros H Hz. pose proof (names_ok _ _ H) as Hnames.
   destruct (safe_schema_parts _ _ H) as [_ _ _ Hfn Hsn _ Hsc].
   apply andb_true_iff in Hsn as [Hsn Hup].
-  unfold compile_schema. apply forallb_join; [reflexivity|]. rewrite schema_lines_eq.
+  change (compile_schema s env) with (join gbnf_schema_line_sep (schema_lines s env)). apply forallb_join; [reflexivity|]. rewrite schema_lines_eq.
   rewrite forallb_app. apply andb_true_iff. split; [|reflexivity].
   cbn [forallb]. apply andb_true_iff. split.
   { rewrite forallb_app, (comment_safe_nz (sc_name s)) by exact Hsn. reflexivity. }
   assert (Hf : forallb (forallb nz) (map field_line (sc_fields s)) = true).
   { apply forallb_forall. intros l Hl. apply in_map_iff in Hl as (f & <- & Hf).
-    unfold field_line. rewrite !forallb_app.
+    rewrite field_line_eq, escape_literal_spec, !forallb_app.
     rewrite (name_ok_nz (rule_name_of f)) by (apply (proj1 (forallb_forall _ _) Hnames); unfold rule_names; apply in_map; exact Hf).
-    rewrite (lit_plain_nz (fd_name f)) by exact (proj1 (forallb_forall _ _) Hfn f Hf).
+    rewrite (gesc_nz (fd_name f)) by (apply no_nul_nz; exact (proj1 (forallb_forall _ _) Hfn f Hf)).
     rewrite (pattern_nz f); [reflexivity| |exact (proj1 (forallb_forall _ _) Hsc f Hf)].
     intro Er. pose proof (proj1 (forallb_forall _ _) Hz f Hf) as Q. cbn beta in Q. rewrite Er in Q. exact Q. }
   assert (Hr : forallb (forallb nz) (if is_nil (sc_fields s) then [L_content_nf] else [refs_line s; L_content_f]) = true).
@@ -336,8 +342,8 @@ Proof.
   assert (Hy : forallb (forallb nz) (if env then [env_start_line s; L_env_end; []; L_meta_block; L_meta_content;
                                                   L_meta_field; []; L_doc_env] else [L_doc_noenv]) = true).
   { destruct env; [|reflexivity]. cbn [forallb]. apply andb_true_iff. split; [|reflexivity].
-    unfold env_start_line. rewrite !forallb_app.
-    cbn [negb orb] in Hup. rewrite (lit_plain_nz (py_upper (sc_name s) (sc_upper s))) by exact Hup. reflexivity. }
+    unfold env_start_line. rewrite escape_literal_spec, !forallb_app.
+    cbn [negb orb] in Hup. rewrite (gesc_nz (py_upper (sc_name s) (sc_upper s))) by (apply no_nul_nz; exact Hup). reflexivity. }
   unfold mid_lines. rewrite !forallb_app.
   repeat (apply andb_true_iff; split); try reflexivity; assumption.
 Qed.
@@ -359,7 +365,6 @@ Lemma mid_lines_rules s env : safe_schema s env = true ->
   lines_rules (mid_lines s env) = Some (removelast (grammar_of s env)).
 Proof.
   intro H. pose proof (all_fields_ok _ _ H) as Hall. pose proof (names_ok _ _ H) as Hnames.
-  destruct (safe_schema_parts _ _ H) as [_ _ _ _ Hsn _ _]. apply andb_true_iff in Hsn as [_ Hup].
   unfold mid_lines, grammar_of.
   assert (E1 : lines_rules [[]; L_ws; []] = Some [rule_of_line L_ws]) by (vm_compute; reflexivity).
   pose proof (lines_rules_fields _ _ Hall) as E2.
@@ -379,7 +384,7 @@ Proof.
                                     rule_of_line L_meta_content; rule_of_line L_meta_field; rule_of_line L_doc_env]
                        else [rule_of_line L_doc_noenv])).
   { destruct env; [|vm_compute; reflexivity].
-    cbn [negb orb] in Hup. destruct (env_start_line_rule s (lit_plain_plainc _ Hup)) as [x Ex].
+    pose proof (env_start_line_rule s) as Ex.
     change ([env_start_line s; L_env_end; []; L_meta_block; L_meta_content; L_meta_field; []; L_doc_env] ++ [[]])
       with ([env_start_line s] ++ [L_env_end; []; L_meta_block; L_meta_content; L_meta_field; []; L_doc_env; []]).
     change [env_start_rule s; rule_of_line L_env_end; rule_of_line L_meta_block; rule_of_line L_meta_content;
@@ -411,7 +416,7 @@ Theorem parse_compile s env : safe_schema s env = true -> regex_nul_free s = tru
   gbnf_parse (compile_schema s env) = Some (grammar_of s env).
 Proof.
   intros H Hz. unfold gbnf_parse, gbnf_parse_g. rewrite cut_nul_id by (apply compile_nz; assumption).
-  unfold compile_schema. rewrite schema_lines_eq.
+  change (compile_schema s env) with (join gbnf_schema_line_sep (schema_lines s env)). rewrite schema_lines_eq.
   change gbnf_schema_line_sep with [c_nl]. rewrite join_nl_snoc.
   unfold unlines. cbn [flat_map]. fold (unlines (mid_lines s env)).
   destruct (safe_schema_parts _ _ H) as [_ _ _ _ Hsn _ _]. apply andb_true_iff in Hsn as [Hsn _].
